@@ -65,6 +65,7 @@ class Line:
         self.pending = []         # [arrival time, bytes]: replies still in flight (latency)
         self.epoch = 0            # connection counter: a late reply can only arrive on the connection it was sent on
         self.echo = False         # RS-485 adaptor with local echo: every byte written comes back first
+        self.sizes = []           # datagram boundaries of what is in rx (only a datagram socket looks at them)
 
     def deliver_due(self, horizon):
         """move replies whose (virtual) arrival time is <= horizon into rx; returns the earliest arrival used"""
@@ -74,6 +75,7 @@ class Line:
         first = due[0]
         self.pending.remove(first)
         self.rx += first[1]
+        self.sizes.append(len(first[1]))
         return first[0]
 
     def write(self, data):
@@ -88,6 +90,7 @@ class Line:
             if self.echo:
                 self.rx += bytes(data)
             self.rx += r.get("rx", b"")
+            self.sizes += r.get("sizes", [len(r["rx"])] if r.get("rx") else [])
             self.recv_error = bool(r.get("recv_error"))
             self.closed_by_peer = bool(r.get("close"))
         return len(data)
@@ -147,8 +150,9 @@ class FakeSocket:
                 ln.clock.sleep(tmo)
                 ln.reads.append({"asked": int(n), "got": 0})
                 raise real_socket.timeout("timed out")
-        got = bytes(ln.rx[:n])
-        ln.rx.clear()                       # one datagram
+        k = ln.sizes.pop(0) if ln.sizes else len(ln.rx)      # one datagram per call; what does not fit the buffer is lost
+        got = bytes(ln.rx[:min(n, k)])
+        del ln.rx[:k]
         ln.reads.append({"asked": int(n), "got": len(got)})
         return got, ("peer", 502)
 
@@ -207,6 +211,7 @@ class Patches:
             if not line.connect_ok:
                 raise OSError("scripted connect failure")
             line.rx.clear()
+            del line.sizes[:]
             del line.pending[:]          # a new connection is a new byte stream: nothing of the old one can arrive on it
             line.epoch += 1
             return FakeSocket(line)
@@ -215,6 +220,7 @@ class Patches:
             if not line.connect_ok:
                 raise OSError("scripted connect failure")
             line.rx.clear()
+            del line.sizes[:]
             del line.pending[:]
             line.epoch += 1
             return FakeSocket(line)
@@ -430,6 +436,7 @@ class Transaction:
             def add(t, u, p):
                 frames.append({"tid": t, "uid": u, "pdu": list(p)})
                 out["rx"] += frame(t, u, p)
+                out.setdefault("sizes", []).append(len(frame(t, u, p)))      # (a datagram peer sends one frame per datagram)
             stale_how = rng.choice(["tid", "fc"] if self.kind == "tcp" else ["uid", "fc"])
 
             def add_stale():
@@ -515,6 +522,7 @@ class Transaction:
             # it arrives now - if the connection it was sent on still exists
             if ep == line.epoch and getattr(self.c, "socket", None) is not None:
                 line.rx += fr
+                line.sizes.append(len(fr))
         return {"uid": uid, "fc": reqpdu[0], "pdu": list(reqpdu), "script": list(script), "fed": fed,
                 "writes": [list(w) for w in line.writes[w0:]], "reads": line.reads[r0:], "result": res,
                 "connfail": 0 if connect_ok else 1, "exact": exact, "pending_at_start": pending0, "vtime": round(self.clock.t - t_start, 3),
